@@ -22,12 +22,26 @@ type PAlt struct {
 	path []PathEl
 }
 
-type PtrV struct{ alts []PAlt }
+// PtrV is a guarded pointer. Alternatives have PRIORITY semantics: the value
+// is the first alternative whose guard holds (the alternatives are exhaustive
+// by construction). eff() yields the equivalent mutually exclusive guards.
+type PtrV struct {
+	alts []PAlt
+	effc []PAlt
+}
 
 type SAlt struct {
 	g   *Term
 	obj int // 0 = nil base
 	off *Term
+	cp  *Term // capacity of this alternative (nil: the slice's cp)
+}
+
+func (s *SliceV) altCap(a SAlt) *Term {
+	if a.cp != nil {
+		return a.cp
+	}
+	return s.cp
 }
 
 // SliceV models slices and strings (str=true). Opaque strings have no alts.
@@ -47,7 +61,20 @@ type IAlt struct {
 type IfaceV struct{ alts []IAlt }
 
 type StructV struct{ f []Value }
-type ArrayV struct{ e []Value }
+// ArrayV holds materialised cells plus a log of guarded stores at symbolic
+// indices that is folded in on reads. States that diverge share the base cells
+// and the log prefix, so merging them costs only the new events.
+type wevent struct {
+	g    *Term
+	idx  *Term
+	rest []PathEl
+	val  Value
+}
+
+type ArrayV struct {
+	e   []Value
+	log []wevent
+}
 type TupleV struct{ v []Value }
 
 type ClosureV struct {
@@ -82,6 +109,31 @@ func samePath(a, b []PathEl) bool {
 		}
 	}
 	return true
+}
+
+// eff returns the alternatives of p with mutually exclusive guards.
+func (ex *Exec) eff(p *PtrV) []PAlt {
+	if len(p.alts) <= 1 {
+		return p.alts
+	}
+	if p.effc != nil {
+		return p.effc
+	}
+	tb := ex.tb
+	out := make([]PAlt, 0, len(p.alts))
+	prev := tb.False
+	for _, a := range p.alts {
+		e := tb.And(a.g, tb.Not(prev))
+		if !e.IsFalse() {
+			out = append(out, PAlt{g: e, obj: a.obj, path: a.path})
+		}
+		prev = tb.Or(prev, a.g)
+		if prev.IsTrue() {
+			break
+		}
+	}
+	p.effc = out
+	return out
 }
 
 func (ex *Exec) nilPtr() *PtrV { return &PtrV{alts: []PAlt{{g: ex.tb.True}}} }
@@ -228,26 +280,50 @@ func (ex *Exec) merge(g *Term, a, b Value) Value {
 		if x == y {
 			return x
 		}
-		ng := tb.Not(g)
-		var alts []PAlt
-		add := func(gg *Term, a PAlt) {
-			ag := tb.And(gg, a.g)
-			if ag.IsFalse() {
-				return
+		if len(x.alts) == 1 && len(y.alts) == 1 && x.alts[0].obj == y.alts[0].obj && samePath(x.alts[0].path, y.alts[0].path) {
+			return x
+		}
+		// strip the common suffix (structural sharing of guarded updates)
+		nx, ny := len(x.alts), len(y.alts)
+		k := 0
+		for k < nx && k < ny {
+			p, q := x.alts[nx-1-k], y.alts[ny-1-k]
+			if p.g != q.g || p.obj != q.obj || !samePath(p.path, q.path) {
+				break
 			}
-			for i := range alts {
-				if alts[i].obj == a.obj && samePath(alts[i].path, a.path) {
-					alts[i].g = tb.Or(alts[i].g, ag)
-					return
+			k++
+		}
+		var alts []PAlt
+		ng := tb.Not(g)
+		if k == 0 && ny < nx {
+			// guard the shorter list; the longer one follows unchanged (it is
+			// exhaustive under the complementary condition)
+			for _, al := range y.alts {
+				ag := tb.And(ng, al.g)
+				if !ag.IsFalse() {
+					alts = append(alts, PAlt{g: ag, obj: al.obj, path: al.path})
 				}
 			}
-			alts = append(alts, PAlt{g: ag, obj: a.obj, path: a.path})
+			alts = append(alts, x.alts...)
+			return &PtrV{alts: alts}
 		}
-		for _, al := range x.alts {
-			add(g, al)
+		for _, al := range x.alts[:nx-k] {
+			ag := tb.And(g, al.g)
+			if !ag.IsFalse() {
+				alts = append(alts, PAlt{g: ag, obj: al.obj, path: al.path})
+			}
 		}
-		for _, al := range y.alts {
-			add(ng, al)
+		if k == 0 {
+			// x is exhaustive under g: y's alternatives follow unchanged
+			alts = append(alts, y.alts...)
+		} else {
+			for _, al := range y.alts[:ny-k] {
+				ag := tb.And(ng, al.g)
+				if !ag.IsFalse() {
+					alts = append(alts, PAlt{g: ag, obj: al.obj, path: al.path})
+				}
+			}
+			alts = append(alts, x.alts[nx-k:]...)
 		}
 		return &PtrV{alts: alts}
 	case *SliceV:
@@ -268,24 +344,31 @@ func (ex *Exec) merge(g *Term, a, b Value) Value {
 			return r
 		}
 		ng := tb.Not(g)
-		add := func(gg *Term, a SAlt) {
+		add := func(gg *Term, a SAlt, parent *SliceV) {
 			ag := tb.And(gg, a.g)
 			if ag.IsFalse() {
 				return
 			}
+			var acp *Term
+			if !x.str {
+				acp = parent.altCap(a)
+			}
 			for i := range r.alts {
 				if r.alts[i].obj == a.obj && r.alts[i].off == a.off {
+					if acp != nil && r.alts[i].cp != acp {
+						r.alts[i].cp = tb.Ite(ag, acp, r.alts[i].cp)
+					}
 					r.alts[i].g = tb.Or(r.alts[i].g, ag)
 					return
 				}
 			}
-			r.alts = append(r.alts, SAlt{g: ag, obj: a.obj, off: a.off})
+			r.alts = append(r.alts, SAlt{g: ag, obj: a.obj, off: a.off, cp: acp})
 		}
 		for _, al := range x.alts {
-			add(g, al)
+			add(g, al, x)
 		}
 		for _, al := range y.alts {
-			add(ng, al)
+			add(ng, al, y)
 		}
 		return r
 	case *IfaceV:
@@ -341,9 +424,35 @@ func (ex *Exec) merge(g *Term, a, b Value) Value {
 		if len(y.e) != n {
 			unsup("merge arrays of different length")
 		}
+		if n > 0 && &x.e[0] == &y.e[0] {
+			// shared base: merge the logs
+			p := 0
+			for p < len(x.log) && p < len(y.log) && sameEvent(x.log[p], y.log[p]) {
+				p++
+			}
+			if p == len(x.log) && p == len(y.log) {
+				return x
+			}
+			log := append([]wevent(nil), x.log[:p]...)
+			for _, ev := range x.log[p:] {
+				gg := tb.And(g, ev.g)
+				if !gg.IsFalse() {
+					log = append(log, wevent{g: gg, idx: ev.idx, rest: ev.rest, val: ev.val})
+				}
+			}
+			ng := tb.Not(g)
+			for _, ev := range y.log[p:] {
+				gg := tb.And(ng, ev.g)
+				if !gg.IsFalse() {
+					log = append(log, wevent{g: gg, idx: ev.idx, rest: ev.rest, val: ev.val})
+				}
+			}
+			return &ArrayV{e: x.e, log: log}
+		}
+		fx, fy := ex.flatten(x), ex.flatten(y)
 		e := make([]Value, n)
 		for i := range e {
-			e[i] = ex.merge(g, x.e[i], y.e[i])
+			e[i] = ex.merge(g, fx.e[i], fy.e[i])
 		}
 		return &ArrayV{e: e}
 	case *TupleV:
@@ -387,6 +496,10 @@ func (ex *Exec) merge(g *Term, a, b Value) Value {
 	}
 	unsup("merge of %T", a)
 	return nil
+}
+
+func sameEvent(a, b wevent) bool {
+	return a.g == b.g && a.idx == b.idx && a.val == b.val && samePath(a.rest, b.rest)
 }
 
 func sameType(a, b types.Type) bool {
